@@ -25,6 +25,7 @@ RULE = (
     "W1: 1-3 group columns, 1-5 values each incl. values containing '_', spaces, unicode; groups lacking a class; 30 scalar ConfusionMatrix "
     "metric names; scalar/list/array thresholds incl. thresholds equal to a score; 3 normalisations; bootstrap quantile/bc/bca, 20-120 samples, "
     "stratification None/by_label/by_group; int and string labels; 4 cfg. Non-trivial: >= 2 groups and both labels present; distinct = hash of inputs."
+    " Build-phase additions: label spellings 1/0/2/True/False/''/'y', reversed frame column order, unrelated columns with gaps, a frame analysed before and edited in place."
 )
 ASSUMPTIONS = ["string group values, finite scores, >= 1 row per group", "NumPy global RandomState seeded per case",
                "the C13 reference model for the interval formula"]
